@@ -247,8 +247,8 @@ def file_writer_level(R, ctx):
 def std_writer_level(R, ctx):
     f = ctx.f
     path = '<primary_writer::std_writer::StdWriter as writers::log_writer::LogWriter>::flush'
-    EFF = [r'::flush$', r'Mutex::<T>::lock$', r'StdStream::lock$', r'pop_buffer$', r'Extend<.*>>::extend$', r'AsyncHandle::send$']
-    rows, I = rows_of(ctx, path, EFF, ni=[r'pop_buffer$', r'AsyncHandle::send$', r'StdStream::lock$'])
+    EFF = [r'::flush$', r'Mutex::<T>::lock$', r'StdStream::lock$', r'pop_buffer$', r'Extend<.*>>::extend$', r'Sender::<T>::(send|try_send)$']
+    rows, I = rows_of(ctx, path, EFF, ni=[r'pop_buffer$', r'StdStream::lock$'])
     b = f.bodies[path]
     bad = None
     seen = set()
@@ -272,8 +272,8 @@ def std_writer_level(R, ctx):
     R.check('R04.1', f"{path}|table", not bad and 'Buffered' in seen, f"{len(rows)} rows", f"StdWriter::flush: {bad}", where=b.loc())
     if ctx.has('async'):
         path = '<primary_writer::std_writer::StdWriter as writers::log_writer::LogWriter>::shutdown'
-        EFF = [r'pop_buffer$', r'Extend<.*>>::extend$', r'AsyncHandle::send$', r'Mutex::<T>::lock$', r'JoinHandle::<T>::join$', r'Option::<T>::take$']
-        rows, I = rows_of(ctx, path, EFF, ni=[r'pop_buffer$', r'AsyncHandle::send$'])
+        EFF = [r'pop_buffer$', r'Extend<.*>>::extend$', r'Sender::<T>::(send|try_send)$', r'Mutex::<T>::lock$', r'JoinHandle::<T>::join$', r'Option::<T>::take$']
+        rows, I = rows_of(ctx, path, EFF, ni=[r'pop_buffer$'])
         b = f.bodies[path]
         bad = None
         n_async = 0
